@@ -92,6 +92,13 @@ class LuaTemplates:
         for name in self.guarded:
             if name not in self.arms:
                 self.problems.append("IR::%s has only guarded arms in the emitter's dispatch" % name)
+        # every instruction reaches the dispatch: nothing in the loop leaves an iteration early (an instruction that is skipped
+        # writes nothing - an `End` whose opener was skipped, or the other way round, unbalances the output)
+        for x in nodes(loop["body"]):
+            if x.get("k") in ("Continue", "Break") and not self._contains(disp, x):
+                inner = any(y is not loop and y.get("k") in ("ForLoop", "While", "Loop") and self._contains(y, x) for y in nodes(loop["body"]))
+                if not inner:
+                    self.problems.append("the instruction loop can skip an instruction (`%s` outside the dispatch)" % x.get("k").lower())
         # statements after the dispatch in the loop body (newline)
         lb = peel(loop["body"])
         after = False
